@@ -126,6 +126,33 @@ def run(ctx, report):
         else:
             R1.violation(inst, inst, 'the value written to the pool is (re)evaluated after the state has started to change: %s' % sorted(seen), where(ea, node))
 
+    R4 = report.rule('C07.D4', 'every overlapped memory cell that is deleted has its remainders re-inserted in the same step', floor=1)
+    dels = [n for n in walk_no_nested(ei) if isinstance(n, ast.Delete) and any(u(t).startswith('self.pool[') for t in n.targets)]
+    if not dels:
+        raise AnalysisError('eval_instr no longer deletes overlapped cells (del self.pool[x]) -- overlap handling changed')
+    for d in dels:
+        loop = parent(d)
+        while loop is not None and not isinstance(loop, ast.For):
+            loop = parent(loop)
+        inst = 'eval_instr:%s' % norm(d)
+        ok = False
+        if loop is not None:
+            rem_names = set()
+            for s2 in loop.body:
+                if isinstance(s2, ast.Assign) and isinstance(s2.value, ast.Call) and u(s2.value.func) == 'self.substract_mems' \
+                        and isinstance(s2.targets[0], ast.Name):
+                    rem_names.add(s2.targets[0].id)
+            for s2 in loop.body:
+                if isinstance(s2, ast.For) and isinstance(s2.iter, ast.Name) and s2.iter.id in rem_names \
+                        and any(isinstance(x, ast.Assign) and u(x.targets[0]).startswith('self.pool[') for x in ast.walk(s2)):
+                    ok = True
+        if ok:
+            R4.ok(inst, sample='%s: remainders of substract_mems(x, op) re-inserted inside the same per-cell loop' % inst)
+        else:
+            R4.violation(inst, 'eval_instr:del-without-reinsert:%s' % norm(d),
+                         'an overlapped cell is deleted but the remainders computed by substract_mems for that cell are not re-inserted in the same loop '
+                         'iteration: bytes of earlier stores that the new store does not cover are lost', where(ea, d))
+
     R2 = report.rule('C07.D2', 'comparisons that decide loop exit compare like with like', floor=2)
     n_cmp = 0
     for m in (eh, ea):
@@ -206,6 +233,10 @@ def value_chain_ok(fn, fr, val, at, res_name, depth=0):
             if not vals:
                 return False
             return all(rec(x) for x in vals)
+        if isinstance(v, (ast.List, ast.Tuple)):
+            return all(rec(x) for x in v.elts)
+        if isinstance(v, ast.Constant):
+            return True
         if isinstance(v, ast.Subscript):
             return u(v.value) == res_name or rec(v.value)
         if isinstance(v, ast.Attribute):
@@ -234,6 +265,9 @@ MUTANTS = [
      '        if not e in self.pool:\n            return e\n        return self.pool[e]\n',
      '        if not e in self.pool:\n            self.pool[e] = e\n            return e\n        return self.pool[e]\n', 'C07.D1'),
     ('ecx-int-compare', 'miasmx/tools/emul_helper.py', '            if my_ecx.arg ==0:\n', '            if my_ecx ==0:\n', 'C07.D2'),
+    ('remainders-outside-loop', 'miasmx/expression/expression_eval_abstract.py',
+     '                    del(self.pool[x])\n                    for xx, yy in diff_mem:\n                        self.pool[xx] = yy\n',
+     '                    del(self.pool[x])\n                for xx, yy in diff_mem:\n                    self.pool[xx] = yy\n', 'C07.D4'),
     ('instr-mod-late', 'miasmx/expression/expression_eval_abstract.py',
      '        tmp_ops = self.get_instr_mod(exprs)\n        mem_dst = []\n', '        mem_dst = []\n        del self.pool[exprs[0].dst]\n        tmp_ops = self.get_instr_mod(exprs)\n', 'C07.D1'),
 ]
